@@ -20,7 +20,8 @@ RULE = (
     "reverse flag) of consistent base tables over 2 faces x 2 axes and 3 faces x {1,2} axes (quick: all single edits of "
     "all bases + all double edits of the 2x2 and 3x1 bases; thorough: all); (c) Hypothesis: random consistent tables "
     "over 2-6 faces with self-links (must be accepted) and the same with 1-3 random slot edits; also two face "
-    "dimensions and a face dimension absent from the dataset (must be refused); the dataset's face coordinate carries 0..n-1 or "
+    "dimensions and a face dimension absent from the dataset - a name the dataset does not know, or the name of an auxiliary "
+    "coordinate / data variable that is not a dimension - (must be refused); the dataset's face coordinate carries 0..n-1 or "
     "other labels (1-based, sparse), the table written with those labels or with 0..n-1. Oracle: independent reciprocity "
     "predicate; construction returns <=> predicate. Non-trivial = table with >= 1 link; distinct = canonical JSON of the table."
 )
@@ -43,7 +44,9 @@ def build_grid(nfaces, axes, table_json, facedims=("face",), ds_facedim="face", 
         coords[l] = (l, np.arange(N) * 1.0)
         gc[a] = {"center": c, "left": l}
     coords[ds_facedim] = (ds_facedim, np.arange(nfaces) if labels is None else np.asarray(labels))
-    ds = xr.Dataset(coords=coords)
+    # names that exist in the dataset without being dimensions: an auxiliary coordinate and a data variable along the face dim
+    coords["tile_id"] = (ds_facedim, np.arange(nfaces) if labels is None else np.asarray(labels))
+    ds = xr.Dataset({"face_area": ((ds_facedim,), np.arange(nfaces) if labels is None else np.asarray(labels))}, coords=coords)
     fc = {}
     for fd in facedims:
         fc.update(gen.table_to_xgcm(table_json, fd))
@@ -191,7 +194,7 @@ def strategy_impl(draw, tier):
     if slots:
         for _ in range(nedits):
             edits.append([list(draw(st.sampled_from(slots))), draw(st.sampled_from(vals))])
-    special = draw(st.sampled_from(["none"] * 8 + ["two-facedims", "absent-facedim"]))
+    special = draw(st.sampled_from(["none"] * 8 + ["two-facedims", "absent-facedim", "facedim-is-aux-coordinate", "facedim-is-data-variable"]))
     # the order in which the faces (and the axes of a face) are listed is part of the input
     order = draw(st.permutations(sorted(table)))
     # the labels of the dataset's face coordinate: 0..n-1, or other integers (1-based tiles, a subset of a larger set);
@@ -229,6 +232,10 @@ def check(case, ctx):
         try:
             if special == "two-facedims":
                 build_grid(nfaces, axes, table, facedims=("face", "tile"))
+            elif special == "facedim-is-aux-coordinate":
+                build_grid(nfaces, axes, table, facedims=("tile_id",), labels=labels)
+            elif special == "facedim-is-data-variable":
+                build_grid(nfaces, axes, table, facedims=("face_area",), labels=labels)
             else:
                 build_grid(nfaces, axes, table, facedims=("tile",))
             raise Violation(f"table with {special} accepted", table=table)
